@@ -1,12 +1,12 @@
 #!/bin/bash
 # tools/coverage.sh [ids...] - development aid: run the driver-based quick checks on a gcov build of the
-# scripted driver and list, per file of ampl/mp, how many lines the generated cases reach.  Output:
+# harnesses (every target is built with the coverage flavor) and list, per file of ampl/mp, how many lines the generated cases reach.  Output:
 # /tmp/verif-cov/cov.info (lcov) and a per-file summary on stdout.  Not part of any check.
 cd "$(dirname "$0")/.."
-export VERIF_DRV_FLAVOR=cov VERIF_BUILD=/tmp/verif-cov
-ids="$*"; [ -n "$ids" ] || ids="C01 C04 C07 C09 C10 C12 C19 C20"
+export VERIF_DRV_FLAVOR=cov VERIF_FORCE_FLAVOR=cov VERIF_BUILD=/tmp/verif-cov
+ids="$*"; [ -n "$ids" ] || ids="C01 C02 C03 C04 C05 C06 C07 C08 C09 C10 C11 C12 C13 C14 C15 C16 C18 C19 C20"
 find /tmp/verif-cov -name "*.gcda" -delete 2>/dev/null
 for id in $ids; do echo "== $id"; ./check $id quick 2>&1 | grep -v KNOWN | tail -2; done
 lcov --capture --directory /tmp/verif-cov/obj/cov --output-file /tmp/verif-cov/cov.info --quiet 2>/dev/null
-lcov --extract /tmp/verif-cov/cov.info '/repo/include/mp/*' '/repo/src/*' --output-file /tmp/verif-cov/mp.info --quiet 2>/dev/null
+lcov --extract /tmp/verif-cov/cov.info '/repo/include/mp/*' '/repo/src/*' '/repo/nl-writer2/*' --output-file /tmp/verif-cov/mp.info --quiet 2>/dev/null
 lcov --list /tmp/verif-cov/mp.info 2>/dev/null
